@@ -1,4 +1,5 @@
 use crate::{
+    cfg::RegisterSet,
     parser::{HasRegisterSets, InstructionProperties, Register},
     passes::{CfgError, GenerationPass},
 };
@@ -62,7 +63,11 @@ impl GenerationPass for LivenessPass {
                     changed |= node.set_live_in(live_in);
                     changed |= node.set_u_def(u_def);
                 } else if node.is_ecall() {
-                    let (args, rets) = node.known_ecall_signature().unwrap_or_default();
+                    // An ecall whose number is not known can read any of
+                    // the argument registers.
+                    let (args, rets) = node
+                        .known_ecall_signature()
+                        .unwrap_or_else(|| (Register::argument_set(), RegisterSet::new()));
 
                     // u_def[n] = (AND u_def[s] for all s in prev[n]) - caller-saved | ecall_returns
                     let u_def = (node
